@@ -606,6 +606,14 @@ func (pool *hostConnPool) connect() (err error) {
 		return nil
 	}
 
+	if conn.Closed() {
+		// The connection died after it was established but before it got here (for
+		// example closed by the server right after the handshake). Its error was
+		// already reported to HandleError, which could not find it in the pool yet,
+		// so nobody would ever remove it again.
+		return ErrConnectionClosed
+	}
+
 	pool.conns = append(pool.conns, conn)
 
 	return nil
